@@ -274,11 +274,13 @@ impl Scenario for C03S {
         "C03"
     }
     fn variants(&self) -> &'static [&'static str] {
-        &["os", "memfd", "inproc"]
+        &["os", "memfd", "inproc", "hook"]
     }
     fn count(&self, tier: Tier, variant: &str) -> u64 {
         match (tier, variant) {
             (Tier::Quick, "os") => 50_000,
+            (Tier::Quick, "hook") => 30_000,
+            (Tier::Thorough, "hook") => 1_000_000,
             (Tier::Quick, _) => 12_000,
             (Tier::Thorough, "os") => 2_000_000,
             (Tier::Thorough, _) => 500_000,
